@@ -10,10 +10,15 @@ the caller treats the tie as broken.
   distribution.py  get_distribution                   -> SrcDist.dispatch
   forcefield_helper.py  get_assignment_class          -> SrcFF.cache_step
   stochastic.py  Stochastic._validate                 -> SrcStoch.validate_bad / validate_count
+  system.py + mixture.py  _estimate_system_molecular_weight and the two linked setters (translate_sys.py)
+                                                      -> SrcSys.* (decision expressions; statement skeleton checked)
 """
 import ast
 import os
 import sys
+
+sys.path.insert(0, os.path.dirname(os.path.abspath(__file__)))
+import translate_sys  # noqa: E402
 
 
 class Unsupported(Exception):
@@ -487,6 +492,8 @@ TARGETS = {
     "SrcDist": ("distribution.py", translate_dist),
     "SrcFF": ("forcefield_helper.py", translate_ff),
     "SrcStoch": ("stochastic.py", translate_stoch),
+    "SrcSysGen": ("system.py", translate_sys.translate_sysgen),
+    "SrcSys": ("system.py", lambda path: translate_sys.translate_sys(path, os.path.join(os.path.dirname(path), "mixture.py"))),
 }
 
 STUB = "(* translator failed: {msg} *)\nFrom GBS Require Import Model.PyStr.\n"
@@ -502,7 +509,7 @@ def run(repo_src, outdir, which=None):
         try:
             text = fn(os.path.join(repo_src, py))
             res[name] = None
-        except (Unsupported, SyntaxError, OSError, AssertionError, IndexError, KeyError) as exc:
+        except (Unsupported, translate_sys.Unsupported, SyntaxError, OSError, AssertionError, IndexError, KeyError, ValueError, AttributeError) as exc:
             text = STUB.format(msg=str(exc).replace("*)", "* )")[:300])
             res[name] = f"{type(exc).__name__}: {exc}"
         old = open(out).read() if os.path.exists(out) else None
